@@ -8,6 +8,7 @@ package interp
 import (
 	"fmt"
 	"go/types"
+	"math/big"
 	"os"
 	"runtime/debug"
 	"sort"
@@ -29,6 +30,8 @@ type Options struct {
 	StopAtFirst  bool // stop exploring after the first violation candidate
 	MaxViol      int  // keep at most this many violation candidates
 	SolverLogDir string
+	Fallback          string // second solver asked when the first says unknown
+	FallbackTimeoutMs int
 	SampleModels int // keep models of this many violation-free paths (translator validation)
 	MapOrder     int // >0: iteration order of maps with at most this many entries is symbolic
 }
@@ -120,6 +123,7 @@ type Path struct {
 	forks     int
 	lz        *lazyState
 	memo      map[string]value // per-path memo tables for stubs
+	extraModel map[string]ModelVal // nondeterministic choices that are not solver variables
 	funcs     map[string]bool
 }
 
@@ -278,7 +282,31 @@ func (p *Path) choose(n int) int {
 }
 
 func (p *Path) model(extra *Term) (Verdict, map[string]ModelVal) {
-	return p.solver.Check(p.pc, extra, p.sorts, true, p.varOrder)
+	v, m := p.solver.Check(p.pc, extra, p.sorts, true, p.varOrder)
+	if v == Sat {
+		if m == nil {
+			m = map[string]ModelVal{}
+		}
+		for k, x := range p.extraModel {
+			m[k] = x
+		}
+	}
+	return v, m
+}
+
+// recordChoice stores a nondeterministic choice under the name the native
+// replay run-time will ask for.
+func (p *Path) recordChoice(name string, c int) {
+	n := p.nameCount["choose:"+name]
+	p.nameCount["choose:"+name] = n + 1
+	full := "choose:" + name
+	if n > 0 {
+		full = fmt.Sprintf("%s#%d", full, n)
+	}
+	if p.extraModel == nil {
+		p.extraModel = map[string]ModelVal{}
+	}
+	p.extraModel[full+"?c"] = ModelVal{S: SInt, I: big.NewInt(int64(c))}
 }
 
 func (p *Path) renderEvents() []string {
@@ -378,10 +406,16 @@ func (pr *Program) Explore(entry *ssa.Function, opts Options) *Result {
 		opts.MaxSteps = 5_000_000
 	}
 	if opts.TimeoutMs <= 0 {
-		opts.TimeoutMs = 30000
+		opts.TimeoutMs = 5000
+	}
+	if opts.FallbackTimeoutMs <= 0 {
+		opts.FallbackTimeoutMs = 20000
 	}
 	if opts.Solver == "" {
 		opts.Solver = "cvc5"
+		if opts.Fallback == "" {
+			opts.Fallback = "z3-new"
+		}
 	}
 	ex := &Explorer{prog: pr, opts: opts, entry: entry}
 	ex.cond = sync.NewCond(&ex.mu)
@@ -404,6 +438,10 @@ func (pr *Program) Explore(entry *ssa.Function, opts Options) *Result {
 
 func (ex *Explorer) worker(id int) {
 	solver, err := NewSolver(ex.opts.Solver, ex.opts.TimeoutMs)
+	if err == nil {
+		solver.OneShot = []string{"z3-new", "cvc5", "z3"}
+		solver.OneShotTimeoutMs = ex.opts.FallbackTimeoutMs
+	}
 	if err != nil {
 		ex.mu.Lock()
 		ex.res.Inconclusive = append(ex.res.Inconclusive, "solver start failed: "+err.Error())
@@ -473,6 +511,8 @@ func (ex *Explorer) worker(id int) {
 	ex.res.Stats.Unsat += st.Unsat
 	ex.res.Stats.Unknown += st.Unknown
 	ex.res.Stats.Errors += st.Errors
+	ex.res.Stats.Rescued += st.Rescued
+
 	ex.res.Stats.SolveTime += st.SolveTime
 	ex.mu.Unlock()
 }
